@@ -129,14 +129,15 @@ func Layouts(a Arch) map[string]*Layout {
 		add(&Layout{Name: "FLAT", Enc: 0xDC000000, Mask: 0xFC000000, Dwords: 2, Op: f0("op", 24, 18),
 			Fields: []Field{f0("glc", 16, 16), f0("slc", 17, 17), f1("addr", 39, 32), f1("data", 47, 40), f1("tfe", 55, 55), f1("vdst", 63, 56)}})
 	} else {
-		// GFX9 family: OFFSET[12:0], LDS[13], SEG[15:14], SADDR[54:48], NV[55]
+		// GFX9 family: OFFSET[12:0], LDS[13], SEG[15:14], SADDR[54:48]; bit 55 is NV on
+		// gfx900 but ACC (AGPR select) on gfx90a/gfx940: never set by this package
 		for _, s := range []struct {
 			n   string
 			seg uint32
 		}{{"FLAT", 0}, {"SCRATCH", 1}, {"GLOBAL", 2}} {
 			add(&Layout{Name: s.n, Enc: 0xDC000000 | s.seg<<14, Mask: 0xFC00C000, Dwords: 2, Op: f0("op", 24, 18),
 				Fields: []Field{f0("offset", 12, 0), f0("lds", 13, 13), f0("glc", 16, 16), f0("slc", 17, 17),
-					f1("addr", 39, 32), f1("data", 47, 40), f1("saddr", 54, 48), f1("nv", 55, 55), f1("vdst", 63, 56)}})
+					f1("addr", 39, 32), f1("data", 47, 40), f1("saddr", 54, 48), f1("acc", 55, 55), f1("vdst", 63, 56)}})
 		}
 		// VOP3P (packed math): ENCODING[31:23] = 110100111, OP[22:16]
 		add(&Layout{Name: "VOP3P", Enc: 0xD3800000, Mask: 0xFF800000, Dwords: 2, Op: f0("op", 22, 16),
